@@ -162,6 +162,10 @@ func genConfig(t *rapid.T) Config {
 		Shards: rapid.SampledFrom([]uint64{1, 2, 3, 73}).Draw(t, "shards"),
 		NKeys:  rapid.IntRange(2, 6).Draw(t, "nkeys"),
 	}
+	// sometimes many keys, so that multi-key lists get long (> 12 keys) and several of them share a shard
+	if rapid.IntRange(0, 5).Draw(t, "manykeys") == 0 {
+		c.NKeys = rapid.IntRange(14, 24).Draw(t, "nkeysmany")
+	}
 	// stride 1: neighbours spread over the shards; stride == shards: all keys in one shard
 	c.Stride = rapid.SampledFrom([]int{1, 1, int(c.Shards), 5}).Draw(t, "stride")
 	return c
@@ -176,8 +180,13 @@ func genKeyList(t *rapid.T, nkeys int, multi bool) []int {
 		return []int{rapid.IntRange(0, nkeys-1).Draw(t, "key")}
 	}
 	var ks []int
+	dense := nkeys > 12 && rapid.Bool().Draw(t, "dense") // long lists: most keys taken
 	for k := 0; k < nkeys; k++ {
-		if rapid.Bool().Draw(t, "in") {
+		if dense {
+			if rapid.IntRange(0, 7).Draw(t, "in8") != 0 {
+				ks = append(ks, k)
+			}
+		} else if rapid.Bool().Draw(t, "in") {
 			ks = append(ks, k)
 		}
 	}
@@ -428,6 +437,9 @@ func ExecCtl(c CaseCtl) *vkit.Result {
 				res.Class("one-key-multi-call")
 			}
 			runs = append(runs, r)
+			if len(keys) > 12 {
+				res.Class("multi-key-list>12")
+			}
 			if len(keys) > 1 {
 				res.Class("multi-key")
 				if c.Shards > 1 && c.Stride%int(c.Shards) != 0 {
@@ -689,7 +701,7 @@ func ExecStress(c CaseStress) *vkit.Result {
 
 var PartCtl = &vkit.Part[CaseCtl]{
 	Property: Property, Name: "controlled",
-	Rule:  "rapid: {KeyLocker | KeyLockerGrp (mod/xxhash) | TKeyLocker | TKeyLockerGrp (mod/xxhash), int or string keys, shards 1/2/3/73, 2-6 keys spread over or colliding in shards} + 4-24 steps (Lock/RLock of one key, Locks/RLocks of a duplicate-free ascending sub-list, unlock by the actor); every call on its own goroutine, quiescence after every step. Oracle (fairness-agnostic): holders observed at quiescence satisfy exclusion on every key of every returned call; a parked call must have a conflicting holder or another waiter on one of its keys; parked calls need some holder; drain must complete everything; 0 entries when nothing is held. Non-trivial: some call had to wait; distinct = distinct case JSON",
+	Rule:  "rapid: {KeyLocker | KeyLockerGrp (mod/xxhash) | TKeyLocker | TKeyLockerGrp (mod/xxhash), int or string keys, shards 1/2/3/73, 2-6 (sometimes 14-24) keys spread over or colliding in shards, lists of up to 24 keys} + 4-24 steps (Lock/RLock of one key, Locks/RLocks of a duplicate-free ascending sub-list, unlock by the actor); every call on its own goroutine, quiescence after every step. Oracle (fairness-agnostic): holders observed at quiescence satisfy exclusion on every key of every returned call; a parked call must have a conflicting holder or another waiter on one of its keys; parked calls need some holder; drain must complete everything; 0 entries when nothing is held. Non-trivial: some call had to wait; distinct = distinct case JSON",
 	Quick: 2500, Thorough: 15000,
 	Gen: GenCtl, Exec: ExecCtl,
 }
